@@ -270,6 +270,75 @@ Qed.
 Theorem waiter_needs_only_an_instance M ts b : In (Q2 b) ts -> inuse ts < M -> next M false ts (Q2 b) = [Q3 b].
 Proof. intros _ H. cbn [next]. apply Nat.ltb_lt in H. rewrite H. reflexivity. Qed.
 
+(* ---------------------------------------------------------------- safety of the lock model itself *)
+(* The lock state is derived from the program counters; these invariants say that the derivation is a lock: at most one
+   holder of updateLock, at most one writer of stateLock and no reader beside it — and at most M instances in use.
+   They hold in every state reachable from a state in which nobody holds anything (both variants of the waiter). *)
+Definition writers (ts : list pc) : nat := length (filter is_writer ts).
+Definition uholders (ts : list pc) : nat := length (filter has_ulock ts).
+(* holders of updateLock that do not (yet) hold stateLock *)
+Definition uonly (p : pc) : bool := match p with QU1 _ | P1 | G1 => true | _ => false end.
+Definition Inv (M : nat) (ts : list pc) : Prop :=
+  inuse ts <= M /\ writers ts + length (filter uonly ts) <= 1 /\ (writers ts = 1 -> readers ts = 0).
+
+Lemma uholders_split l : length (filter has_ulock l) = length (filter is_writer l) + length (filter uonly l).
+Proof. induction l as [|a l IH]; [reflexivity|]. destruct a; cbn [filter has_ulock is_writer uonly length]; lia. Qed.
+
+Lemma cnt_mid (f : pc -> bool) pre x post :
+  length (filter f (pre ++ x :: post)) = length (filter f pre) + (if f x then 1 else 0) + length (filter f post).
+Proof. rewrite filter_app, app_length. cbn [filter]. destruct (f x); cbn [length]; lia. Qed.
+
+Lemma existsb_false_cnt (f : pc -> bool) l : existsb f l = false -> length (filter f l) = 0.
+Proof. intros H. apply filter_nil_len. exact (existsb_false_all f l H). Qed.
+
+Lemma step_inv M wl ts ts' : step M wl ts ts' -> Inv M ts -> Inv M ts'.
+Proof.
+  intros H HI. destruct H as [pre p post p' Hin]. unfold Inv, inuse, readers, writers in *.
+  rewrite !cnt_mid in *.
+  destruct p; cbn [next] in Hin;
+    repeat match goal with
+           | H : In _ (if ?c then _ else _) |- _ => let E := fresh "G" in destruct c eqn:E
+           | H : In _ (match ?b with 0 => _ | S _ => _ end) |- _ => destruct b
+           | H : In _ (_ :: _) |- _ => destruct H as [H|H]; [subst p'|]
+           | H : In _ [] |- _ => destruct H
+           end;
+    repeat match goal with
+           | G : rlock_ok _ = true |- _ => unfold rlock_ok in G; apply andb_true_iff in G; destruct G as [?G1 ?G2]
+           | G : wlock_ok _ = true |- _ => unfold wlock_ok, readers in G; apply andb_true_iff in G; destruct G as [?G1 ?G2]
+           | G : ulock_ok _ = true |- _ => unfold ulock_ok in G; apply negb_true_iff in G; apply existsb_false_cnt in G;
+                                           rewrite uholders_split, !cnt_mid in G
+           | G : negb _ = true |- _ => apply negb_true_iff in G; apply existsb_false_cnt in G; rewrite cnt_mid in G
+           | G : (_ =? 0) = true |- _ => apply Nat.eqb_eq in G; rewrite cnt_mid in G
+           | G : (_ <? _) = true |- _ => apply Nat.ltb_lt in G; unfold inuse in G; rewrite cnt_mid in G
+           end;
+    cbn [is_reader is_writer uonly has_inst wants_write] in *; lia.
+Qed.
+
+Theorem reachable_states_are_lock_states M wl n ts ts' : steps M wl n ts ts' -> Inv M ts -> Inv M ts'.
+Proof. induction 1 as [ts|n ts ts1 ts2 H1 _ IH]; intros HI; [exact HI|]. exact (IH (step_inv _ _ _ _ H1 HI)). Qed.
+
+(* in particular from the start: requests, updates and queries that have not begun *)
+Definition fresh (p : pc) : bool := match p with Q0 _ | P0 | G0 => true | _ => false end.
+Lemma fresh_inv M ts : forallb fresh ts = true -> Inv M ts.
+Proof.
+  intros H. rewrite forallb_forall in H.
+  assert (Z : forall f : pc -> bool, (forall p, fresh p = true -> f p = false) -> length (filter f ts) = 0).
+  { intros f Hf. apply filter_nil_len. intros x Hx. apply Hf. exact (H x Hx). }
+  unfold Inv, inuse, writers, readers.
+  rewrite (Z has_inst), (Z uonly), (Z is_writer), (Z is_reader); try (intros p; destruct p; cbn; congruence).
+  repeat split; lia.
+Qed.
+
+(* AT MOST M INSTANCES IN USE, one holder of updateLock, one writer of stateLock and no reader beside it — in every state
+   reachable (under either variant of the waiter) from requests, updates and queries that have not begun *)
+Theorem at_most_M_instances_in_use M wl n ts ts' :
+  forallb fresh ts = true -> steps M wl n ts ts' ->
+  inuse ts' <= M /\ uholders ts' <= 1 /\ writers ts' <= 1 /\ (writers ts' = 1 -> readers ts' = 0).
+Proof.
+  intros Hf Hs. destruct (reachable_states_are_lock_states _ _ _ _ _ Hs (fresh_inv M ts Hf)) as [A [B C]].
+  unfold uholders. rewrite uholders_split. unfold writers in *. repeat split; try lia; exact C.
+Qed.
+
 (* ---------------------------------------------------------------- executable runs, and the variant *)
 Fixpoint set_nth {A} (i : nat) (l : list A) (x : A) : list A :=
   match l, i with
